@@ -2,6 +2,7 @@ package block
 
 import (
 	"context"
+	"time"
 
 	"github.com/evstack/ev-node/internal/zzsym"
 	"github.com/evstack/ev-node/types"
@@ -180,4 +181,55 @@ func ZZ_C08_outage_restart() {
 	err = m.publishBlockInternal(ctx)
 	zzsym.Assert(err == nil && e.store.height == before+1, "production-resumes-after-outage-and-restart")
 	zzsym.Reach("resumed")
+}
+
+// ZZ_C08_loop_outage: the real header (or data) submission loop runs through a
+// DA outage that outlasts one whole submission round (all 30 attempts of a
+// round fail, so the round ends with an error) and the DA layer then accepts:
+// the loop is still alive, submits on a later tick, the watermark reaches the
+// chain height and the next production step is no longer refused.
+func ZZ_C08_loop_outage() {
+	zzsym.FreezeClock()
+	zzsym.SetClockNs(1 << 50)
+	// (a concrete small state: the subject is the loop's timing, not the data)
+	e := zzNewEnv(1)
+	W, n := uint64(4), 1+zzsym.Pick("n", 2)
+	ne := make([]bool, n)
+	for i := range ne {
+		ne[i] = true
+	}
+	e.zzChain(W, n, ne)
+	da := &zzDA{height: 5}
+	e.da = da
+	m := e.zzManager(types.State{ChainID: e.chainID, InitialHeight: 1, LastBlockHeight: W + uint64(n)})
+	m.da = da
+	m.pendingHeaders.base.lastHeight.Store(W)
+	m.pendingData.base.lastHeight.Store(W)
+	m.config.Node.MaxPendingHeadersAndData = uint64(n)
+	m.config.DA.BlockTime.Duration = 10 * time.Millisecond
+	m.config.DA.MempoolTTL = 1
+	// generic failures for one whole round (and a few more), then the DA layer accepts
+	fails := 30 + zzsym.Pick("extra-failures", 3)
+	for i := 0; i < fails; i++ {
+		da.script = append(da.script, zzDAAnswer{kind: 6})
+	}
+	dataLoop := zzsym.Bool("dataLoop")
+	ctx, cancel := context.WithCancel(context.Background())
+	t0 := zzsym.NowNs()
+	// long after the outage: 30 attempts x at most one DA block time of back-off, plus ticks
+	zzsym.At(t0+int64(3*time.Second), cancel)
+	if dataLoop {
+		m.DataSubmissionLoop(ctx)
+	} else {
+		m.HeaderSubmissionLoop(ctx)
+	}
+	cancel()
+	H := W + uint64(n)
+	if dataLoop {
+		zzsym.Assert(m.pendingData.getLastSubmittedDataHeight() == H, "data-submitted-after-the-outage")
+	} else {
+		zzsym.Assert(m.pendingHeaders.getLastSubmittedHeaderHeight() == H, "headers-submitted-after-the-outage")
+	}
+	zzsym.Reach("outage-over")
+	_ = e
 }
